@@ -54,8 +54,24 @@ impl std::fmt::Display for AssetClass {
     }
 }
 
-#[derive(Serialize, Deserialize, Debug, Clone, PartialEq, Eq)]
+#[derive(Serialize, Deserialize, Debug, Clone)]
 pub struct CanonicalAssets(HashMap<AssetClass, i128>);
+
+// Equality is semantic: an entry with amount zero is the same as no entry, whatever
+// constructor or operation produced the value.
+impl PartialEq for CanonicalAssets {
+    fn eq(&self, other: &Self) -> bool {
+        let matches = |a: &Self, b: &Self| {
+            a.0.iter()
+                .filter(|(_, amount)| **amount != 0)
+                .all(|(class, amount)| b.0.get(class) == Some(amount))
+        };
+
+        matches(self, other) && matches(other, self)
+    }
+}
+
+impl Eq for CanonicalAssets {}
 
 impl std::fmt::Display for CanonicalAssets {
     fn fmt(&self, f: &mut std::fmt::Formatter<'_>) -> std::fmt::Result {
